@@ -130,6 +130,7 @@ func (s *Server) flushAOF(sync bool) {
 		if err != nil {
 			panic(err)
 		}
+		verifPoint(s, "aof.flush", s.aofsz)
 		// send a broadcast to all sleeping followers
 		s.fcond.Broadcast()
 		if sync {
@@ -165,6 +166,7 @@ func (s *Server) writeAOF(args []string, d *commandDetails) error {
 			s.aofbuf = redcon.AppendBulkString(s.aofbuf, arg)
 		}
 		s.aofsz += len(s.aofbuf) - n
+		verifPoint(s, "aof.append", args, s.aofsz)
 	}
 
 	// process geofences
